@@ -34,6 +34,7 @@ struct C12 : Scenario {
         o.min_rot_steps = 4;
         Cfg c = swarm_cfg(r, o);
         if (r.chance(0.3)) vary_machine(r, c);
+        if (r.chance(0.3)) { wild_cfg(r, c); p.seti("wild", 1); }
         Derived d = derive(c);
         c.tracking = ""; c.verbose = false;
         c.to_plan(p);
@@ -171,6 +172,7 @@ struct C12 : Scenario {
         }
         o.probe("reach.common_records", common);
         if (planner == 1) o.probe("reach.planner_real");
+        if (plan.geti("wild", 0)) o.probe("reach.wild_configuration");
         if (base.renorm > 0) o.probe("reach.renormalisation_every_n");
         if (d.has_wake) o.probe("reach.with_wake");
         if (d.nbunches > 1) o.probe("reach.multibunch");
